@@ -1009,6 +1009,10 @@ impl Session {
                 continue;
             }
 
+            // Any other non-positive value is not a record size (defensive: skip it)
+            if size <= 0 {
+                continue;
+            }
             let size = size as usize;
 
             tracing::trace!(
@@ -1038,7 +1042,11 @@ impl Session {
                 buffer = buffer.split_off(size);
             } else if remain_payload_len > 0 {
                 // This packet contains payload + padding
-                let padding_len = size.saturating_sub(remain_payload_len + HEADER_OVERHEAD_SIZE);
+                // A waste frame carries at most 65535 bytes (16-bit length field)
+                let padding_len = std::cmp::min(
+                    size.saturating_sub(remain_payload_len + HEADER_OVERHEAD_SIZE),
+                    u16::MAX as usize,
+                );
 
                 if padding_len > 0 {
                     // Create padding frame (cmdWaste)
@@ -1059,6 +1067,8 @@ impl Session {
                 buffer.clear();
             } else {
                 // This packet is all padding
+                // A waste frame carries at most 65535 bytes (16-bit length field)
+                let size = std::cmp::min(size, u16::MAX as usize);
                 let mut padding_frame = BytesMut::with_capacity(HEADER_OVERHEAD_SIZE + size);
                 padding_frame.put_u8(Command::Waste as u8);
                 padding_frame.put_u32(0); // stream_id = 0
